@@ -1701,4 +1701,122 @@ theorem c07_sched_blind_register_silences :
     blind.slot .U = .requested ∧ (process blind (.proto (.fresh .U) .member .m3)).2.delivered = blind.delivered := by
   decide
 
+namespace LockOrder
+open Shapes
+
+/-! ### the lock order read off the source
+
+The lock traces of `Model/C07Locks.lean` are a hand transcription.  Here the acquisition graph is computed from the
+call/lock sequences `harness/cmd/astfacts` regenerates from the source on every run (`Shapes.lean`): walking a
+function's tokens with the set of locks held (`X.Lock` adds an edge from every held lock to X; `X.Unlock` releases
+unless the next token is a `return` — the unlock of an early-exit branch; a deferred unlock holds to the end; a `go{ … }`
+block starts with nothing held; a call of a function of the table is walked with the caller's locks held). -/
+
+def lockTok : List (String × Lock) :=
+  [("transmitMux.Lock", .transmitMux), ("instancesLock.Lock", .instances), ("pendingTreeLock.Lock", .pendingTree),
+   ("pendingMsgLock.Lock", .pendingMsg), ("pendingConfigsMut.Lock", .pendingCfg), ("ts.Lock", .store),
+   ("msgDispatchQueueMutex.Lock", .queue)]
+
+def unlockTok : List (String × Lock) :=
+  [("transmitMux.Unlock", .transmitMux), ("instancesLock.Unlock", .instances), ("pendingTreeLock.Unlock", .pendingTree),
+   ("pendingMsgLock.Unlock", .pendingMsg), ("pendingConfigsMut.Unlock", .pendingCfg), ("ts.Unlock", .store),
+   ("msgDispatchQueueMutex.Unlock", .queue)]
+
+def returns : List String := ["return:", "return:nil", "return:tni", "return:true", "return:false"]
+
+/-- the functions of onet a call token stands for (what is not listed takes none of the seven locks: user code, the
+router, reflection) -/
+def callees : List (String × List String) :=
+  [("o.requestTree", overlay_Overlay_requestTree), ("o.cleanTreeStorage", overlay_Overlay_cleanTreeStorage),
+   ("o.nodeDelete", overlay_Overlay_nodeDelete), ("o.getConfig", overlay_Overlay_getConfig_b2),
+   ("o.hasPendingMsg", overlay_Overlay_hasPendingMsg_b2), ("o.checkPendingMessages", overlay_Overlay_checkPendingMessages),
+   ("o.savePendingMsg", overlay_Overlay_savePendingMsg), ("o.newTreeNodeInstanceFromToken", overlay_Overlay_newTreeNodeInstanceFromToken),
+   ("o.RegisterProtocolInstance", overlay_Overlay_RegisterProtocolInstance), ("o.TransmitMsg", overlay_Overlay_TransmitMsg),
+   ("o.handleConfigMessage", overlay_Overlay_handleConfigMessage_b2), ("o.handleSendTree", overlay_Overlay_handleSendTree),
+   ("TreeMarshal.MakeTree", []), ("o.handleSendTreeMarshal", overlay_Overlay_handleSendTreeMarshal),
+   ("o.handleRequestTree", overlay_Overlay_handleRequestTree), ("o.handleRequestRoster", overlay_Overlay_handleRequestRoster),
+   ("o.handleSendRoster", overlay_Overlay_handleSendRoster), ("o.checkPendingTreeMarshal", overlay_Overlay_checkPendingTreeMarshal),
+   ("o.RegisterTree", overlay_Overlay_RegisterTree), ("o.addPendingTreeMarshal", overlay_Overlay_addPendingTreeMarshal),
+   ("treeStorage.Get", treestorage_treeStorage_Get), ("treeStorage.getAndRefresh", treestorage_treeStorage_getAndRefresh),
+   ("treeStorage.Set", treestorage_treeStorage_Set), ("treeStorage.Remove", treestorage_treeStorage_Remove),
+   ("treeStorage.GetRoster", treestorage_treeStorage_GetRoster), ("treeStorage.IsRequested", treestorage_treeStorage_IsRequested),
+   ("treeStorage.IsRegistered", treestorage_treeStorage_IsRegistered), ("treeStorage.Register", treestorage_treeStorage_Register),
+   ("treeStorage.Unregister", treestorage_treeStorage_Unregister),
+   ("tni.closeDispatch", treenode_TreeNodeInstance_closeDispatch), ("pi.ProcessProtocolMsg", treenode_TreeNodeInstance_ProcessProtocolMsg)]
+
+/-- tokens that open a block closed by `"}"` (besides `go{`) in the functions of the table -/
+def openers : List String := ["defer{", "range:_,msg:=o.pendingMsg{", "range:_,inst:=o.instances{", "range:_,tm:=sl{"]
+
+/-- the edges (held, acquired) of one function's tokens.  `go`: `some (depth, saved)` while inside a `go{ … }` block
+(nothing of the caller is held there; `saved` comes back at its end) -/
+def walkWith (call : List Lock → List String → List (Lock × Lock)) :
+    List Lock → Option (Nat × List Lock) → List String → List (Lock × Lock)
+  | _, _, [] => []
+  | held, go, tok :: rest =>
+    if tok == "go{" then
+      match go with
+      | none => walkWith call [] (some (1, held)) rest
+      | some (d, sv) => walkWith call held (some (d + 1, sv)) rest
+    else if openers.contains tok then
+      match go with
+      | none => walkWith call held none rest
+      | some (d, sv) => walkWith call held (some (d + 1, sv)) rest
+    else if tok == "}" then
+      match go with
+      | none => walkWith call held none rest
+      | some (d, sv) => if d ≤ 1 then walkWith call sv none rest else walkWith call held (some (d - 1, sv)) rest
+    else
+      match lockTok.lookup tok with
+      | some l => (held.map fun h => (h, l)) ++ walkWith call (l :: held) go rest
+      | none =>
+        match unlockTok.lookup tok with
+        | some l =>
+          match rest with
+          | nxt :: _ => if returns.contains nxt then walkWith call held go rest else walkWith call (held.erase l) go rest
+          | [] => []
+        | none =>
+          match callees.lookup tok with
+          | some body => call held body ++ walkWith call held go rest
+          | none => walkWith call held go rest
+
+/-- calls are followed `n` levels deep (the only cycle is `TransmitMsg` → flush → `TransmitMsg`, through a `go`) -/
+def walk : Nat → List Lock → List String → List (Lock × Lock)
+  | 0 => fun _ _ => []
+  | n + 1 => fun held toks => walkWith (walk n) held none toks
+
+/-- the handlers `Overlay.Process` dispatches to, the flush, and what an instance's end runs -/
+def entries : List (List String) :=
+  [overlay_Overlay_handleConfigMessage_b2, overlay_Overlay_handleRequestTree, overlay_Overlay_handleSendTree,
+   overlay_Overlay_handleSendTreeMarshal, overlay_Overlay_handleRequestRoster, overlay_Overlay_handleSendRoster,
+   overlay_Overlay_TransmitMsg, overlay_Overlay_checkPendingMessages, overlay_Overlay_nodeDone, overlay_Overlay_RegisterTree,
+   overlay_Overlay_getConfig_b2]
+
+def edges : List (Lock × Lock) := (entries.flatMap (walk 5 [])).eraseDups
+
+
+/-- **the acquisition graph of the source**: over every handler `Overlay.Process` dispatches to, the flush, the end of an
+instance — following calls into the overlay, the tree store and the instance — these are ALL the pairs (lock held, lock
+taken).  They are the nestings `Model/C07Locks.lean` transcribes by hand. -/
+theorem c07_lock_graph_of_source :
+    edges = [(.transmitMux, .instances), (.transmitMux, .store), (.transmitMux, .pendingMsg), (.transmitMux, .pendingCfg),
+             (.transmitMux, .queue), (.instances, .store), (.pendingTree, .store), (.instances, .queue)] := by
+  decide
+
+/-- **the order is a strict one**: every acquisition in the source goes up in `rank` — so no cycle of handlers waiting for
+each other's locks exists, and no lock is taken while it is held -/
+theorem c07_lock_order_of_source : ∀ e ∈ edges, rank e.1 < rank e.2 := by
+  rw [c07_lock_graph_of_source]; decide
+
+/-- **negation witness** (seeded C07r7-A): a `handleConfigMessage` that looks at the instance list while it holds the
+config list, and a `getConfig` called inside the instance-list region of `TransmitMsg`, give the two opposite edges —
+the second against the order -/
+theorem c07_lock_order_inversion_detected :
+    walk 3 [] ["pendingConfigsMut.Lock", "defer:pendingConfigsMut.Unlock", "instancesLock.Lock", "instancesLock.Unlock"]
+      = [(.pendingCfg, .instances)] ∧
+    walk 3 [] ["transmitMux.Lock", "defer:transmitMux.Unlock", "instancesLock.Lock", "o.cleanTreeStorage", "o.getConfig", "instancesLock.Unlock"]
+      = [(.transmitMux, .instances), (.instances, .store), (.transmitMux, .store), (.instances, .pendingCfg), (.transmitMux, .pendingCfg)] ∧
+    ¬ rank Lock.pendingCfg < rank Lock.instances := by
+  decide
+
+end LockOrder
 end C07
